@@ -1121,6 +1121,7 @@ def zygote_main(jobfile):
         timeout = float(job.get("timeout", 120))
         running = {}   # pid -> (index, read fd, start)
         nxt = 0
+        hangs = 0
         import select
 
         bufs = {}
@@ -1160,7 +1161,8 @@ def zygote_main(jobfile):
                     results[idx] = {"error": "child died without a result"}
             now = time.time()
             for pid, (idx, r, t0) in list(running.items()):
-                if now - t0 > timeout:
+                if now - t0 > (timeout if hangs == 0 else min(timeout, 30.0)):   # after a first hang do not wait as long again
+                    hangs += 1
                     try:
                         os.kill(pid, 9)
                         os.waitpid(pid, 0)
@@ -1178,7 +1180,13 @@ def zygote_main(jobfile):
 # PART 2 - the harness proper (runs in the ./check process)
 # =================================================================================================
 _LAUNCH = "import sys; sys.path.insert(0, sys.argv[2]); from harness import c14; c14.zygote_main(sys.argv[1])"
-EXPECTED_FINDINGS = ("builder_leak", "realized_sticky", "global_array_aliased")
+# deviation ids of spec/History.tla (RealDevs) that the implementation model needs on the current tree:
+#   builder_leak          pattern_builder() has no try/finally: an exception inside `with pattern_builder(b)` leaves
+#                         _pattern_builder = b; later `x + y` value patterns are built in b's domain
+#   realized_sticky       nn.Parameter._realized is per object, not per builder: a module tree built into a second
+#                         graph registers no initializers
+#   global_array_aliased  a numpy array global used as a script-time constant is wrapped, not copied: mutating it in
+#                         place after decoration changes to_model_proto()/to_function_proto()
 
 
 def _workdir():
@@ -1465,9 +1473,9 @@ def run(ctx: core.Ctx):
             rest = sorted([c for c in cs if not dev(c)], key=flows, reverse=True)
             cs = devs + rest[:120] + rng.sample(rest[120:], min(60, len(rest[120:])))
         elif cfg == "History_quick4.cfg":
-            devs = [c for c in cs if dev(c)][:400]
+            devs = [c for c in cs if dev(c)][:300]
             rest = sorted([c for c in cs if not dev(c)], key=flows, reverse=True)
-            cs = devs + rest[:1500] + rng.sample(rest[1500:], min(600, len(rest[1500:])))
+            cs = devs + rest[:1000] + rng.sample(rest[1000:], min(400, len(rest[1000:])))
         selected += [(c, "one") for c in cs]
     ctx.set("spec_histories", len(allcases))
     ctx.set("replayed_histories", len(selected))
